@@ -6,7 +6,7 @@ sys.path.insert(0, os.path.join(VERIF, "tools"))
 from propcfg import PROPS, HOOK_COMMITS
 
 props = [json.loads(l) for l in open(os.path.join(VERIF, "properties.jsonl"))]
-claimed = sorted(PROPS)
+claimed = sorted(k for k in PROPS if PROPS[k].get("rule") != "TODO")
 m = {
     "version": 1,
     "setup_cmd": "./setup.sh",
@@ -29,7 +29,7 @@ m = {
 }
 for p in props:
     pid = p["id"]
-    if pid in PROPS:
+    if pid in claimed:
         c = PROPS[pid]
         m["checks"].append({
             "property_id": pid,
